@@ -135,3 +135,34 @@ class Bare_delete_one:
 view("xandikos.store.git.BareGitStore", "ghost_locked", "false_view")
 
 view("xandikos.store.git.BareGitStore", "ghost_trees", "trees_view")
+
+
+view("xandikos.store.git.BareGitStore", "ghost_cfg", "bare_cfg_view")
+
+
+@contract("xandikos.store.git.BareGitStore._import_one", variant="metadata", when={"name": ".xandikos"},
+          params={"self": "obj:xandikos.store.git.BareGitStore", "name": "str", "data": "opaque:Chunks",
+                  "message": "str", "author": "opt[str]"},
+          returns="bytes", modifies=["self.repo"])
+class Bare_import_one_metadata:
+    """C15 (persist step of the versioned metadata file): storing `.xandikos` makes exactly
+    these bytes the collection's metadata entry, changes no member, and is one commit iff the
+    bytes differ from what is stored."""
+
+    def requires(self, name):
+        return rep_bare(self.repo) and name == ".xandikos"
+
+    def ensures(self, name, data, result):
+        return (result == blob_id(data)
+                and repo_has(self.repo, result)
+                and self.ghost_cfg == result.decode("ascii")
+                and self.ghost_M == old(self.ghost_M))
+
+    def ensures_history(self, name, data, result):
+        changed = old(self.ghost_cfg) != result.decode("ascii")
+        return (rep_bare(self.repo)
+                and forall("bytes", lambda o: implies(o in old(repo_objects(self.repo)), o in repo_objects(self.repo)))
+                and implies(not changed, repo_head(self.repo) == old(repo_head(self.repo))
+                            and repo_ncommits(self.repo) == old(repo_ncommits(self.repo)))
+                and implies(changed, repo_ncommits(self.repo) == old(repo_ncommits(self.repo)) + 1
+                            and commit_parent(repo_head(self.repo)) == old(repo_head(self.repo))))
